@@ -12,6 +12,29 @@ COMPONENTS_LIB = dict(
           '(configured by /repo/CMakeLists.txt)'],
     stub=[])
 
+LEGEND = {
+    'stream': 'init|reinit slot kind variant L n1 n2 n3 seed (kind: 0 hash 1 hasha 2 xof 3 xofa 4 prf 5 hmac 6 hmaca 7 kmac 8 kmaca 9 kdf 10 kdfa 11 hkdf 12 hkdfa 13-15 incremental AEAD 128/128a/80pq; '
+              'variant: xof 0 plain 1 fixed 2 custom, prf 1 fixed, AEAD 0 enc 1 dec 2 dec-tampered; n1/n2/n3 = key/name/AD, custom/salt, info/message lengths); absorb slot len inplace; squeeze slot len; '
+              'copy dst src; next slot dir adlen mlen seed (next packet on the same AEAD state); end slot; free slot; perm slot round seed; knob.page 1 = buffers against guard pages; knob.twin 1 = twin-secret run',
+    'channel': 'sess s family keyseed carry (family = class*3+alg; class 0 one-shot 1 incremental 2 masked 3 siv 4 isap 5-8 the C++ classes; carry = trailing 0xFF bytes of the starting nonce); '
+               'send s mlen adlen seed; deliver s which fault faultseed keep (fault 1 flip ct 2 flip tag 3 flip AD 4 truncate 5 extend 6 multi-bit 7 AD length 8 last tag bit); drop s which; '
+               'rekey s who seed (who 0 sender 1 receiver 2 both); nonce s who kind arg seed (kind 0 set_counter 1 set_nonce(len)); sync s (datagram resynchronisation); '
+               'storm s packet what seed (single-bit flips of 0 ct||tag 1 AD 2 nonce 3 key through fresh receiver objects); close s',
+    'prng': 'knob.tape kind seed; knob.flash size page erase; knob.flip seed (which tape/feed byte the influence twins flip); boot load nvfault nvarg transient permfail; fetch n transient permfail; feed n seed; '
+            'reseed transient permfail; save|load nvfault nvarg transient permfail (nvfault 1 read error 2 short read 3 write error 4 short write 5 torn write + power loss); grandom n transient permfail (ascon_random); free',
+    'cli': 'knob.chunk max bytes per read/write; knob.eintr every n-th call interrupted; knob.rounds PBKDF2 rounds (0 = real); file name len seed; enc|dec name pw flags keyfile-ending rngfail then two fault slots '
+           '(syscall ordinal kind arg; syscall 0 open-r 1 open-w 2 read 3 write 6 fopen 7 fread; kind 1 EINTR 2 EAGAIN 3 short 4 EIO 5 ENOSPC 6 EACCES 7 crash after arg bytes); flags bit0 explicit -e/-d bit1 -o bit2 key file bit3 stdin/stdout; '
+           'tamper name kind seed; gen keyfile rngfail + faults; sum alg filemask missing + fault; chk alg filemask spoil seed; sweep name kind seed (thorough); hostile kind k seed',
+    'bytes': 'hexenc n upper capsel seed; hexdec nbytes kind capsel seed (kind 0 clean 1 whitespace 2 illegal char 3 odd digits; capsel exact/-1/0/+1/+17); hexcpp nbytes kind how seed; '
+             'ba op var other n value failat (op 0 default-construct 1 construct(n,v) 2 copy-construct 3 assign 4 [] write 5 [] read 6 data() write 7 resize 8 reserve 9 push_back 10 pop_back 11 clear 12 compare 13 iterate 14 destroy; failat = k-th allocation fails)',
+    'masked': 'knob.tape kind seed (0 random 1 zero 2 ones 3 const 4 period2 5 period3 6 counter 7 adversarial); w.* word ops (word, shares/other, size, seed); s.* state ops (state, shares|round, fresh-preserve, seed); k.key which how seed; a.aead alg mlen adlen tamper seed',
+    'keystore': 'key slot alg keyseed home; enc slot mlen adlen seed; dec slot mlen adlen seed tamper; save slot; restart slot where (bit0 other memory, bit1 dirty); free slot; siv alg mlen adlen seed',
+    'cppobj': 'new obj class alg how keyseed (how 0 default 1 key ctor 2 NULL key 3 ISAP saved key 4 ISAP len 0); setkey obj how seed (0 full 1 zero-len NULL 2 zero-len non-NULL 3 saved ISAP key 4 length 7 then full); '
+              'enc|dec obj mlen adlen seed overload [tamper]; setnonce obj len seed; setcounter obj n; savekey|randomize|clear|del obj; hnew h kind how namelen customlen seed; hupd h overload len seed; hout h overload len; hcopy dst src; hassign dst src; hpad|hreset|hdel h; hdigest alg len seed',
+    'threads': 'knob.threads n; knob.sched mode rate seed changepoints (mode 0 Bernoulli 1/rate, 1 change points); op thread kind mlen adlen seed shared-inputs (kind 0-17 C API, 18-21 C++ wrappers)',
+}
+
+
 _built = {}
 _cfgs = {}
 _collect = None   # when a list: world_exe only records what would be built
@@ -181,6 +204,7 @@ def setup():
 # ---------------------------------------------------------------------------
 def check_C07(tier, seed):
     o = D.Outcome('C07', tier, seed)
+    o.legend = LEGEND
     o.components = dict(real=COMPONENTS_LIB['real'], stub=['none: the scheduler decides only the order and '
                         'chunking of public API calls on several live objects'])
     o.assumptions = ['oracle is the library\'s own single-call form (one-shot function, or a fresh object driven by '
@@ -203,6 +227,7 @@ CHANNEL_STUB = ['the network between the two endpoints (packet pool: loss, dupli
 
 def check_C02(tier, seed):
     o = D.Outcome('C02', tier, seed)
+    o.legend = LEGEND
     o.components = dict(real=COMPONENTS_LIB['real'], stub=CHANNEL_STUB)
     o.assumptions = ['ledger oracle: a delivery must be accepted iff (key, nonce, AD, ciphertext||tag) equals the tuple of '
                      'an encryption the sender performed; accidental forgery (2^-128) is ignored',
@@ -221,6 +246,7 @@ def check_C02(tier, seed):
 
 def check_C14(tier, seed):
     o = D.Outcome('C14', tier, seed)
+    o.legend = LEGEND
     o.components = dict(real=COMPONENTS_LIB['real'], stub=CHANNEL_STUB)
     o.assumptions = ['128-bit big-endian counter model (unsigned __int128) in the harness',
                      'substrate for "packet i equals the one-shot result under N+i" is the library\'s own one-shot function',
@@ -237,6 +263,7 @@ def check_C14(tier, seed):
 
 def check_C15(tier, seed):
     o = D.Outcome('C15', tier, seed)
+    o.legend = LEGEND
     o.components = dict(real=COMPONENTS_LIB['real'] + ['ascon_trng_generate() and its EINTR/EAGAIN retry loop (src/random/ascon-trng-dev-random.c)'],
                         stub=['getrandom() behind -Wl,--wrap (entropy tape + EINTR/EAGAIN/EIO script)',
                               'non-volatile page behind the ascon_storage_t callbacks (errors, short and torn writes, power loss by longjmp)'])
@@ -263,6 +290,7 @@ CLI_STUB = ['open/read/write/close/unlink/isatty behind -Wl,--wrap: in-memory fi
 
 def check_C19(tier, seed):
     o = D.Outcome('C19', tier, seed)
+    o.legend = LEGEND
     o.components = dict(real=COMPONENTS_LIB['real'] + ['apps/asconcrypt/*.c and apps/asconsum/asconsum.c compiled from /repo with main renamed'],
                         stub=CLI_STUB)
     o.assumptions = ['transient faults (EINTR, EAGAIN, short reads/writes) must end in success-with-correct-output or in a loud failure without output',
@@ -279,6 +307,7 @@ def check_C19(tier, seed):
 
 def check_C20(tier, seed):
     o = D.Outcome('C20', tier, seed)
+    o.legend = LEGEND
     o.components = dict(real=COMPONENTS_LIB['real'] + ['src/cplusplus/ascon-byte-array.cpp and utility.h compiled with -DASCON_NO_STL (whole library rebuilt in that configuration)'],
                         stub=['global operator new/delete (allocation-failure decision and live-block accounting)'])
     o.assumptions = ['hex grammar oracle: digits of both cases, the six C whitespace characters, anything else / odd count / insufficient space => -1',
@@ -296,6 +325,7 @@ def check_C20(tier, seed):
 
 def check_C10(tier, seed):
     o = D.Outcome('C10', tier, seed)
+    o.legend = LEGEND
     o.components = dict(real=COMPONENTS_LIB['real'] + ['masked word/state/key/AEAD code of the configured backend (x86-64 assembly, 64-bit C, 32-bit C)'],
                         stub=['ascon_trng_init/_free/_generate_32/_generate_64/_reseed replaced at link time by a tape reader '
                               '(zero, ones, constant, period-2/3, counter, random, adversarial = the secret being masked); ascon-trng-mixer.c is not linked'])
@@ -318,6 +348,7 @@ def check_C10(tier, seed):
 
 def check_C06(tier, seed):
     o = D.Outcome('C06', tier, seed)
+    o.legend = LEGEND
     o.components = dict(real=COMPONENTS_LIB['real'], stub=['none: the simulator decides the history (packets, save, restart into clean or dirty memory, free) '
                                                            'and keeps the saved image as the only durable state'])
     o.assumptions = ['reference models of ISAP v2.0 and of the documented SIV construction written over the library\'s public permutation API, '
@@ -366,6 +397,7 @@ def replay_compile(d):
 
 def check_C17(tier, seed):
     o = D.Outcome('C17', tier, seed)
+    o.legend = LEGEND
     o.components = dict(real=COMPONENTS_LIB['real'] + ['public C++ headers of /repo/src/ascon as included by the harness translation unit'],
                         stub=['getrandom() (deterministic tape; only the masked classes draw from it)'])
     o.assumptions = ['the harness translation unit asim/worlds/cppobj.cpp instantiates every public member and overload; a compile error located in a /repo header is reported as a C17 violation',
@@ -398,6 +430,7 @@ def check_C17(tier, seed):
 
 def check_C16(tier, seed):
     o = D.Outcome('C16', tier, seed)
+    o.legend = LEGEND
     o.components = dict(real=['every C translation unit of /repo/src compiled with clang -O1 and load/store/function-entry callbacks (trace flavour); '
                               'C++ wrapper sources are compiled uninstrumented and are not exercised here'],
                         stub=['thread scheduling: real pthreads released one at a time by a seeded scheduler (Bernoulli pre-emption at rate 1/10..1/5000 or d change points)',
@@ -424,6 +457,7 @@ TWIN_WORLDS = [('stream', 60000), ('channel', 40000), ('prng', 6000), ('keystore
 
 def check_C13(tier, seed):
     o = D.Outcome('C13', tier, seed)
+    o.legend = LEGEND
     o.components = dict(real=COMPONENTS_LIB['real'] + ['release flavour: the exact flags CMake uses for the shipped library (-O3), so an elided wipe would be elided here too'],
                         stub=['getrandom() (tape; part of the secrets that differ between the twin runs)', 'network / storage seams of the reused worlds'])
     o.assumptions = ['twin-secret oracle: the same plan is executed twice in one process with different keys, messages, fed entropy and entropy tape; '
@@ -446,6 +480,7 @@ def check_C13(tier, seed):
 
 def check_C12(tier, seed):
     o = D.Outcome('C12', tier, seed)
+    o.legend = LEGEND
     o.components = dict(real=COMPONENTS_LIB['real'] + ['both command-line tools; everything compiled with gcc -O1 -fsanitize=address,undefined -fno-sanitize-recover (assembly files cannot be instrumented: '
                                                        'for them exact-size buffers end against PROT_NONE guard pages in a quarter of the runs)'],
                         stub=['all seams of the reused worlds (network, entropy, storage, simulated OS, allocator, tape TRNG)'])
@@ -517,6 +552,7 @@ def _diff_shrink(exes, lines, tier, env, max_runs=200, max_s=60):
 def check_C09(tier, seed):
     import hashlib
     o = D.Outcome('C09', tier, seed)
+    o.legend = LEGEND
     o.components = dict(real=COMPONENTS_LIB['real'] + ['one complete build of the library per configuration, each configured by /repo/CMakeLists.txt with the matching -DBACKEND_*/-D*_SHARES/-DCHECK_ACQUIRE_RELEASE options'],
                         stub=['seams of the reused worlds (network, entropy tape, storage, allocator)'])
     o.assumptions = ['the plan of run i is configuration independent, so "same seed => same history digest" is a checkable equality across builds',
